@@ -26,7 +26,7 @@ SENT = "__vmon_sentinel__"
 
 def plan(tier, seed):
     if tier == "quick":
-        return [{"pairs": 60, "triples": 25, "generic": 150, "timeout": 900} for i in range(NSHARDS)]
+        return [{"pairs": 60, "triples": 36, "generic": 150, "timeout": 900} for i in range(NSHARDS)]
     return [{"pairs": 1200, "triples": 450, "generic": 3000, "timeout": 3000} for i in range(NSHARDS)]
 
 
@@ -215,10 +215,13 @@ def run_shard(spec):
     # triples: decide, merge, apply, render decisions
     for j in range(spec["triples"]):
         gen = NBGen(r, exotic=(j % 5 == 0))
-        cls, b, l, rm, info, waste = valid_triple(gen)
+        # every third triple from the classes that end in the cell-level strategies (marker cells, take-all-inserts,
+        # both-sides-inserted): the functions that build NEW cells out of the callers' cells
+        want = r.choice(["same_id_insert", "both_insert_lists", "both_insert_dissimilar", "insert_near", "same_frame_insert"]) if j % 3 == 2 else None
+        cls, b, l, rm, info, waste = valid_triple(gen, cls=want, minor=(5 if want == "same_id_insert" and r.random() < 0.7 else None))
         if cls is None:
             continue
-        for cfg in covering_configs(r, 3):
+        for cfg in covering_configs(r, 3) + ([{"merge": "inline", "input": None, "output": None, "ignore_transients": True}] if want else []):
             nbd.hygiene()
             args = merge_args(cfg)
             nb_, nl, nr = to_node(b), to_node(l), to_node(rm)
